@@ -667,6 +667,38 @@ func runGraphs(c *core.Ctx, modes []int, per int, tag string) {
 			c.Count("cyclic_graphs", 1)
 		}
 		c.Key("%s/%d/%d/%v/%d/%d/%d", tag, k, mode, f.acyclic, min(f.nodes/20, 12), min(f.branching, 6), min(f.sources, 4))
+		if c.Rng.Intn(2) == 0 {
+			// the same graph object queried again after it was changed (obiconsensus filters rare
+			// k-mers out of a graph it has already examined; more reads may be pushed afterwards):
+			// every answer must follow the current node table
+			minw := 2 + c.Rng.Intn(3)
+			if f.maxW > 4 && c.Rng.Intn(2) == 0 {
+				minw = 1 + c.Rng.Intn(f.maxW)
+			}
+			c.Risk(fmt.Sprintf("FilterMinWeight k=%d min=%d", k, minw))
+			if p, msg := guard(func() { g.FilterMinWeight(minw) }); p {
+				violate(c, "panic:filter", "FilterMinWeight panicked: "+msg, map[string]any{"k": k, "seqs": set.strings(), "min": minw})
+				continue
+			}
+			f2 := checkGraph(c, g, k, map[string]any{"k": k, "seqs": set.strings(), "counts": set.effCounts(), "after_FilterMinWeight": minw})
+			c.Count("evaluations", 1)
+			c.Count("graphs_rechecked_after_filter", 1)
+			if !f.acyclic && f2.acyclic && f2.nodes >= 2 {
+				c.Count("cycles_removed_by_filter", 1)
+				c.Key("%s-filtered/%d/%d/cycle-removed", tag, k, mode)
+			}
+			if c.Rng.Intn(2) == 0 {
+				extra := graphSet(c, k, mode)
+				if p, _ := guard(func() {
+					for i, q := range extra.Seqs {
+						g.Push(bs(q, extra.Counts[i]))
+					}
+				}); !p {
+					checkGraph(c, g, k, map[string]any{"k": k, "seqs": set.strings(), "then_filtered": minw, "then_pushed": extra.strings()})
+					c.Count("evaluations", 1)
+				}
+			}
+		}
 		if it == 0 {
 			c.Sample(map[string]any{"k": k, "seqs": set.strings(), "counts": set.effCounts(), "acyclic": f.acyclic, "nodes": f.nodes, "branching_nodes": f.branching, "max_walk_weight": f.maxW})
 		}
@@ -882,8 +914,10 @@ func init() {
 			{Name: "cycle", N: core.Const(64, 512), Run: runCycle, Shard: 2, TimeoutS: 3600},
 			{Name: "identity", N: core.Const(32, 256), Run: runIdentity, Shard: 2, TimeoutS: 3600},
 			{Name: "canonical", N: core.Const(nCombos, nCombos*6), Run: runCanonical, Shard: 4, TimeoutS: 3600},
+			{Name: "kmersim-e2e", N: core.Const(4, 24), Run: runKmerSimE2E},
 			{Name: "fourmer", N: core.Const(32, 256), Run: runFourmer, Shard: 2, TimeoutS: 3600},
 		},
+		Cmds:          []string{"obikmersimcount"},
 		MinNontrivial: 500,
 		// every sub-check must have observed the situations it is about
 		Post: func(tier string, counters map[string]int64) (inconclusive []string) {
